@@ -14,7 +14,7 @@
 // default arguments that are class temporaries crash the front end (declaration of CPPManifest::expand, not a kernel)
 //@hdrsubst cpp*.h "from= = (vector_string|Ignores|CPPManifest::Ignores|YYSTYPE)\(\)" to=
 //@hdrinsert cppStructType.h after="bool is_destructible(CPPVisibility min_vis) const;" text="bool is_destructible__body(CPPVisibility min_vis) const; bool is_default_constructible__body(CPPVisibility min_vis) const; bool is_copy_constructible__body(CPPVisibility min_vis) const;"
-//@hdrinsert cppStructType.h after="void get_pure_virtual_funcs(VFunctions &funcs) const;" text="void get_pure_virtual_funcs__body(VFunctions &funcs) const;"
+//@hdrinsert cppStructType.h after="void get_pure_virtual_funcs(VFunctions &funcs) const;" text="void get_pure_virtual_funcs__body(VFunctions &funcs) const; CPPInstance *get_default_constructor__body() const;"
 //@bison src/cppparser/cppBison.yxx cppBison.h
 #include "dtoolbase.h"
 #include "cppStructType.h"
@@ -82,6 +82,11 @@ static CPPInstance *g_vf[2]; static int vin_nvf; static CPPFunctionType *g_vf_ty
 void CPPStructType::get_virtual_funcs(VFunctions &funcs) const { for (int i = 0; i < 2; i++) if (i < vin_nvf) funcs.push_back(g_vf[i]); }
 static CPPFunctionType *vu_as_function_type(CPPType *t) { for (int i = 0; i < 2; i++) if (t == (CPPType *)g_vf_type[i]) return g_vf_type[i]; return (CPPFunctionType *)0; }
 //@extract src/cppparser/cppStructType.cxx CPPStructType::get_pure_virtual_funcs rename=__body "subst1=@inst->_type->as_function_type\(\)@vu_as_function_type(inst->_type)@"
+// ---- the declared constructors of the class (callee get_constructor): up to two, each with up to two parameters
+#include "cppParameterList.h"
+static CPPInstance *g_ctor_inst[2]; static CPPFunctionType *g_ctor_type[2];
+static CPPFunctionType *vu_ctor_function_type(CPPType *t) { for (int i = 0; i < 2; i++) if (t == (CPPType *)g_ctor_type[i]) return g_ctor_type[i]; return (CPPFunctionType *)0; }
+//@extract src/cppparser/cppStructType.cxx CPPStructType::get_default_constructor rename=__body "subst1=@inst->_type->as_function_type\(\)@vu_ctor_function_type(inst->_type)@"
 static int vin_nb, vin_nm; static bool vin_member_static[NM], vin_member_has_init[NM];
 static void make_class() {
   g_self = VU_NEW(CPPStructType);
@@ -208,5 +213,32 @@ void h_get_pure_virtual_funcs() {
   for (int i = 0; i < 2; i++) { in_out[i] = i < vin_nvf && vin_pure[i] && !(vin_is_dtor[i] && g_vf[i] != g_dtor); if (in_out[i]) want++; }
   OBL(out._n == want, "C10.get_pure_virtual_funcs: the pure virtual functions of a class are the not-yet-overridden virtual functions marked pure, except a pure virtual destructor inherited from a base (the class's own destructor, declared or implicit, overrides it)");
   for (int i = 0; i < 2; i++) if (in_out[i]) { bool found = false; for (size_t k = 0; k < 2; k++) if (k < out._n && out._d[k] == g_vf[i]) found = true; OBL(found, "C10.get_pure_virtual_funcs: every remaining pure virtual function is reported"); }
+  VU_REACHED();
+}
+
+// [class.default.ctor]: a default constructor is a constructor that can be called without an argument: it has no parameter,
+// or every parameter has a default argument (in well-formed code: the first one has)
+void h_get_default_constructor() {
+  g_self = VU_NEW(CPPStructType);
+  CPPFunctionGroup *grp = VU_NEW(CPPFunctionGroup);
+  size_t vin_nctors = nondet_size_t(); __CPROVER_assume(vin_nctors <= 2);
+  grp->_instances._n = vin_nctors; grp->_instances._trunc = false;
+  bool callable_without_args[2];
+  for (int i = 0; i < 2; i++) {
+    g_ctor_inst[i] = VU_NEW(CPPInstance); g_ctor_type[i] = VU_NEW(CPPFunctionType); g_ctor_inst[i]->_type = (CPPType *)g_ctor_type[i];
+    CPPParameterList *pl = VU_NEW(CPPParameterList); g_ctor_type[i]->_parameters = pl;
+    size_t np = nondet_size_t(); __CPROVER_assume(np <= 2); pl->_parameters._n = np; pl->_parameters._trunc = false;
+    bool d0 = nondet_bool(), d1 = nondet_bool(); __CPROVER_assume(!d0 || d1 || np < 2);      // well-formed: a default argument is followed by default arguments only
+    CPPInstance *p0 = VU_NEW(CPPInstance), *p1 = VU_NEW(CPPInstance);
+    p0->_initializer = d0 ? (CPPExpression *)vu_alloc(8) : (CPPExpression *)0; p1->_initializer = d1 ? (CPPExpression *)vu_alloc(8) : (CPPExpression *)0;
+    pl->_parameters._d[0] = p0; pl->_parameters._d[1] = p1;
+    callable_without_args[i] = np == 0 || d0;
+    grp->_instances._d[i] = g_ctor_inst[i];
+  }
+  g_ctors = nondet_bool() ? grp : (CPPFunctionGroup *)0;
+  CPPInstance *r = g_self->get_default_constructor__body();
+  CPPInstance *want = 0;
+  if (g_ctors) { for (int i = 1; i >= 0; i--) if ((size_t)i < vin_nctors && callable_without_args[i]) want = g_ctor_inst[i]; }
+  OBL(r == want, "C10.get_default_constructor: the default constructor is the declared constructor that can be called without an argument (no parameter, or default arguments from the first one on); S(int id, int flags = 0) is not one");
   VU_REACHED();
 }
